@@ -327,3 +327,17 @@ Example c11_mask_route_nonvacuous :
   = POk [true; false; true; false] /\
   p_mask_row c11_st c11_x = POk [(0%nat, 0); (2%nat, 670594)].
 Proof. split; vm_compute; reflexivity. Qed.
+
+(* c11_sound with the FULL Holm-Bonferroni value (restricted-Holm equivalence composed in):
+   recorded => the full Holm-corrected p-value is below p_th, for raw p-values in [0, 1] and p_th <= 1 *)
+Theorem c11_sound_full_holm : forall st mask x v up g,
+  Forall (fun q => 0 <= q <= pi_SP x) (pi_p x) -> pi_T x <= pi_SP x ->
+  margin (st_S st) (st_th st) ->
+  - st_S st < q1_min (st_th st) -> q1_min (st_th st) < q1_th (st_th st) ->
+  score_differential_genes st mask x = POk (v, up) -> nth_error v g = Some true ->
+  st_n_min st <= pi_n1 x /\ st_n_min st <= pi_n2 x /\
+  (exists h, nth_error (correct_ttest (pi_SP x) 0 (pi_p x)) g = Some h /\ h < pi_T x) /\
+  in_list mask g /\
+  exists sc, nth_error (pi_scores x) g = Some sc /\ crit (st_th st) (st_exact st) sc.
+Proof. exact sdg_sound_full_holm. Qed.
+Print Assumptions c11_sound_full_holm.
